@@ -13,7 +13,7 @@
     is the sequence of its element requests), and that the evaluator never pops or changes
     an evaluated element of an input series. *)
 From Coq Require Import String List ZArith Bool Arith.
-From PV.DSL Require Import Syntax Values Target Compile Interp Exec Laws Sound CompileProps Main Regular Examples.
+From PV.DSL Require Import Syntax Values Target Compile Interp Exec Laws Sound CompileProps Main Regular Examples PropsLemmas.
 From PV.Gen Require Import Algorithms_gen.
 Import ListNotations.
 Open Scope string_scope.
@@ -34,13 +34,7 @@ Theorem C10_history :
     nth_error rs2 i2 = Some (tb2, name, ix) -> nth_error os2 i2 = Some (Ok v2) ->
     forall f w, interp O alg (SW O W sfn) f (KN name) ix = Some w ->
       eqv (den O v1) w /\ eqv (den O v2) w.
-Proof.
-  intros V O eqv L alg W sfn WO fuel1 fuel2 c1 c2 rs1 rs2 os1 os2 s1 s2 i1 i2 tb1 tb2 name ix v1 v2
-         E1 E2 N1 N2 R1 O1 R2 O2 f w Ef.
-  split.
-  - exact (@schedule_value V O eqv L alg W sfn WO fuel1 c1 rs1 os1 s1 i1 tb1 name ix v1 E1 N1 R1 O1 f w Ef).
-  - exact (@schedule_value V O eqv L alg W sfn WO fuel2 c2 rs2 os2 s2 i2 tb2 name ix v2 E2 N2 R2 O2 f w Ef).
-Qed.
+Proof. exact L_C10_history. Qed.
 Print Assumptions C10_history.
 
 Example C10_history_example :
@@ -68,11 +62,7 @@ Theorem C10_inputs_untouched :
      run O alg (compile alg) W fuel s (tb, name, ix) = (r, s') -> r <> OutOfFuel ->
      kind_of alg (xw_inputs W) x = KInput ->
      st_lookup s (TTab, KN x, ix') = Some (Done v) -> st_lookup s' (TTab, KN x, ix') = Some (Done v)).
-Proof.
-  intros alg inputs Hp. split.
-  - intros name body s tr. now apply compile_never_deletes_inputs.
-  - intros V O eqv L W sfn _ WO fuel s tb name ix r s' x ix' v. now apply request_keeps_inputs.
-Qed.
+Proof. exact L_C10_inputs_untouched. Qed.
 Print Assumptions C10_inputs_untouched.
 
 Example C10_inputs_untouched_example :
